@@ -61,14 +61,49 @@ def families(tier):
         ("G2-three-nucleotides", lambda: iter(fam.g2(tier)), 8),
         ("G3-corpus", lambda: fam.corpus_cases(tier, G3_Q, G3_T), 16),
         ("G4-schedules", lambda: g4_cases(tier), 4),
+        # one structure object with two models of different geometry, queried model 1, model 2, model 1 again
+        ("two-models", lambda: fam.two_model_cases(fam.g1_pairs(tier), 13 if tier == "quick" else 7, 3), 8),
     ]
 
 
 
 
+def run_two_models(case):
+    from rnapolis.annotator import extract_base_interactions, find_pairs
+
+    out = []
+    s = fam.two_model_structure(case)
+    m2 = dict(case["m2"], idmode=case["m1"].get("idmode", 0))
+    judges = {1: ac.PairJudge(refann.from_structure3d(fam.structure_of(case["m1"]))), 2: ac.PairJudge(refann.from_structure3d(fam.structure_of(m2)))}
+    tot = [0, 0, 0]
+    seen = []
+    for step, m in enumerate((1, 2, 1)):
+        seams.PAIR_ORDER.fn = None
+        r = observe(find_pairs, s, m)
+        if r[0] == "exc":
+            out.append(viol("find_pairs:model:" + r[1], "find_pairs(structure, %d) raised %s" % (m, r[2])))
+            continue
+        seen.append([(b.nt1.number, b.nt1.icode, b.nt2.number, b.nt2.icode, b.lw.value) for b in r[1][0]])
+        res = judges[m].judge(r[1][0], out, ":other-model" if step else "")
+        for k in range(3):
+            tot[k] += res[k]
+        if step == 1:
+            r3 = observe(extract_base_interactions, s, m)
+            if r3[0] == "ok":
+                judges[m].judge(r3[1].basePairs, out, ":extract:other-model")
+    if len(seen) == 3 and seen[0] != seen[2]:
+        out.append(viol("pair:model-answer-changes", "find_pairs(structure, 1) answers differently after model 2 was queried on the same object", seen[2], seen[0]))
+    u = {}
+    for v in out:
+        u.setdefault(v["signature"], v)
+    return dict(nontrivial=bool(tot[0] or tot[1]), outcome="two-models reported=%d demanded=%d" % (min(tot[0], 3), min(tot[1], 3)), violations=list(u.values()), undecided=bool(tot[2]))
+
+
 def run_case(case):
     from rnapolis.annotator import find_pairs
 
+    if case["g"] == 4:
+        return run_two_models(case)
     out = []
     s = fam.corpus_variant_structure(case) if case["g"] == 3 else fam.structure_of(case)
     seams.PAIR_ORDER.fn = None
@@ -76,12 +111,21 @@ def run_case(case):
     if r[0] == "exc":
         return dict(nontrivial=True, outcome="exc", violations=[viol("find_pairs:" + r[1], "find_pairs raised " + r[2])])
     bps, bph, br = r[1]
+    last_order = seams.PAIR_ORDER.last  # of this find_pairs call; later calls overwrite the seam's record
     pj = ac.PairJudge(refann.from_structure3d(s))
     nrep, ndem, und = pj.judge(bps, out)
+    # the second observation point: the pairs inside the full annotation are judged in their own right
+    from rnapolis.annotator import extract_base_interactions
+
+    r3 = observe(extract_base_interactions, s, None)
+    if r3[0] == "exc":
+        out.append(viol("extract_base_interactions:" + r3[1], "extract_base_interactions raised " + r3[2]))
+    else:
+        pj.judge(r3[1].basePairs, out, ":extract")
     states = transitions = 0
     outcomes = {tuple(sorted((b.nt1.number, b.nt1.icode or "", b.nt2.number, b.nt2.icode or "", b.lw.value) for b in bps))}
-    if case.get("schedules") and _seam[0] and (bps or bph or br) and seams.PAIR_ORDER.last:
-        natural, data, rr = seams.PAIR_ORDER.last
+    if case.get("schedules") and _seam[0] and (bps or bph or br) and last_order:
+        natural, data, rr = last_order
         resof = {}
         for ri, res in enumerate(s.residues):
             for a in res.atoms:
